@@ -84,13 +84,22 @@ class TableWorld(World):
         ENV.set_actor("setup")
         self.pre_handles()
         n = 1 if self.topology == "shared" else self.n_handles
-        self.handles = [load_table(self.location) for _ in range(n)]
+        if getattr(self, "lazy_handles", False):
+            # every actor opens the table itself, as its first scheduled steps (opening is part of the race)
+            self.handles = [None] * n
+        else:
+            self.handles = [load_table(self.location) for _ in range(n)]
 
     def pre_handles(self) -> None:
         pass
 
     def handle(self, i: int) -> Any:
-        return self.handles[0] if self.topology == "shared" else self.handles[i]
+        k = 0 if self.topology == "shared" else i
+        if self.handles[k] is None:
+            from datashard import load_table
+
+            self.handles[k] = load_table(self.location)
+        return self.handles[k]
 
     def digest(self) -> Any:
         return self.adapter.digest()
